@@ -14,6 +14,7 @@
 package listener
 
 import (
+	"io"
 	"net"
 	"time"
 )
@@ -25,11 +26,23 @@ type DummyUDPConn struct {
 	Raddr *net.UDPAddr
 
 	Fn func(b []byte, addr *net.UDPAddr) (int, error)
+
+	// set once the whole datagram has been read
+	drained bool
 }
 
 func (dc *DummyUDPConn) Read(b []byte) (int, error) {
+	// a datagram that has been consumed is at its end: never return (0, nil)
+	// forever, callers like io.Copy would spin on it
+	if dc.drained {
+		return 0, io.EOF
+	}
+
 	n := copy(b, dc.Buffer)
 	dc.Buffer = dc.Buffer[n:]
+	if len(dc.Buffer) == 0 {
+		dc.drained = true
+	}
 	return n, nil
 }
 
